@@ -101,6 +101,14 @@ def terms_and_paths(rng, tier):
         for cp in "CP":
             for k, b in [(5, 3), (7, 9), (9, 11), (5, 15), (7, 5)]:
                 out.append(({"cls": "Barrier", "kind": kd, "cp": cp, "k": [k, b]}, spot_paths))
+    # paths that END at the same spot but differ in whether (and which) barrier was crossed on the way: the value
+    # of a path-dependent product is a function of the whole path, not of where it ends
+    same_end = [[[6, 2, 10], [6, 9, 10], [6, 12, 10]], [[10, 3, 4], [10, 8, 4], [6, 13, 4]], [[8, 1, 8, 8], [8, 8, 8, 8], [8, 15, 9, 8]]]
+    for kd in ("DI", "DO", "UI", "UO"):
+        for cp in "CP":
+            for k, b in [(5, 5), (7, 23), (9, 7), (13, 25)]:
+                for grp in same_end:
+                    out.append(({"cls": "Barrier", "kind": kd, "cp": cp, "k": [k, b]}, grp))
     for k in (0, 5):
         out.append(({"cls": "Asian", "k": [k]}, spot_paths))
     # cumulative log-jump paths (doubled, even steps) and doubled odd negative thresholds
